@@ -491,3 +491,72 @@ Lemma refuted_witnesses :
   lex_lines_fixed [34; 10]%N = [0; 2] /\
   source_pos (lex_lines_fixed [34; 10]%N) [34; 10]%N 2 = Some (2, 1).
 Proof. vm_compute. repeat split. Qed.
+
+(* ---- NodeInfo.End is the position just after the last character ---- *)
+Lemma upto_succ_notin off l : ~ In (S off) l -> upto (S off) l = upto off l.
+Proof.
+  induction l as [|x l IH]; intros H; [reflexivity|]. rewrite !upto_cons.
+  assert (x <> S off) by (intros ->; apply H; now left).
+  assert (~ In (S off) l) by (intros Hi; apply H; now right).
+  replace (x <=? S off) with (x <=? off) by lia. now rewrite IH.
+Qed.
+
+Lemma slice_one (data : list N) : forall o, o < length data -> slice data o (S o) = [nth o data 0%N].
+Proof.
+  unfold slice. intros o H. replace (S o - o) with 1 by lia. revert o H.
+  induction data as [|b data IH]; intros o H; [cbn [length] in H; lia|].
+  destruct o as [|o]; [reflexivity|]. cbn [skipn nth]. apply IH. cbn [length] in H. lia.
+Qed.
+
+Theorem node_end_after_last_char_lemma : forall t data o len,
+  StronglySorted lt (0 :: t) -> 0 < len -> o + len <= length data ->
+  ~ In (o + len) (0 :: t) ->
+  nth (o + len - 1) data 0%N <> 9%N -> rune_start (nth (o + len - 1) data 0%N) = true ->
+  node_end (0 :: t) data (o, len) = source_pos (0 :: t) data (o + len).
+Proof.
+  intros t data o len Hs Hl Hd Hn H9 Hr. unfold node_end.
+  replace (0 <? len) with true by lia.
+  remember (o + (len - 1)) as off eqn:Eo.
+  replace (o + len) with (S off) in * by lia. replace (S off - 1) with off in * by lia.
+  rewrite !source_pos_sorted by assumption.
+  replace (length data <? off) with false by lia. replace (length data <? S off) with false by lia.
+  rewrite (upto_succ_notin off _ Hn).
+  pose proof (last_upto_le off (0 :: t)) as Hlast.
+  rewrite (slice_split data _ off (S off)) by lia.
+  rewrite col_loop_app, slice_one by lia. cbn [col_loop].
+  replace (nth off data 0%N =? 9)%N with false by lia. rewrite Hr.
+  f_equal. f_equal. lia.
+Qed.
+
+(* on the table of the repaired lexer: no entry at o + len unless the last byte is a newline *)
+Lemma nl_after_from_in s : forall pos x, In x (nl_after_from pos s) -> nth (x - 1 - pos) s 0%N = 10%N.
+Proof.
+  induction s as [|c s IH]; intros pos x H; [destruct H|]. cbn [nl_after_from] in H.
+  unfold is_nl in H. destruct (c =? 10)%N eqn:E.
+  - destruct H as [<-|H].
+    + replace (S pos - 1 - pos) with 0 by lia. cbn [nth]. lia.
+    + pose proof (nl_after_from_bounds _ _ _ H). specialize (IH _ _ H).
+      replace (x - 1 - pos) with (S (x - 1 - S pos)) by lia. exact IH.
+  - pose proof (nl_after_from_bounds _ _ _ H). specialize (IH _ _ H).
+    replace (x - 1 - pos) with (S (x - 1 - S pos)) by lia. exact IH.
+Qed.
+
+Theorem fixed_node_end_lemma : forall data o len,
+  0 < len -> o + len <= length data ->
+  (nth (o + len - 1) data 0 < 128)%N -> nth (o + len - 1) data 0%N <> 9%N -> nth (o + len - 1) data 0%N <> 10%N ->
+  node_end (lex_lines_fixed data) data (o, len)
+  = Some (1 + count_nl (firstn (o + len) data), 1 + col_loop (slice data (line_start data (o + len)) (o + len)) 0).
+Proof.
+  intros data o len Hl Hd Ha H9 H10.
+  rewrite <- fixed_source_pos_lemma by assumption.
+  rewrite fixed_line_table_lemma. apply node_end_after_last_char_lemma; try assumption.
+  - rewrite <- fixed_line_table_lemma. apply table_sorted.
+  - intros [H|H]; [lia|]. apply nl_after_from_in in H. apply H10. rewrite <- H. f_equal. lia.
+  - unfold rune_start. lia.
+Qed.
+
+(* non-vacuity: a quoted string holding a raw tab, at column 1: the closing quote is at column 9, the end at 10 *)
+Example node_end_example :
+  node_end (lex_lines_fixed [34; 9; 34]%N) [34; 9; 34]%N (0, 3) = Some (1, 10) /\
+  node_end (lex_lines_fixed [32; 34; 195; 169; 9; 34; 59]%N) [32; 34; 195; 169; 9; 34; 59]%N (1, 5) = Some (1, 10).
+Proof. vm_compute. split; reflexivity. Qed.
